@@ -67,3 +67,34 @@ theorem natBE_length (k n : Nat) : (natBE k n).length = k := by
   | succ k ih => simp [natBE, ih]
 
 end Dos.Framing
+
+namespace Dos.Framing
+open Dos
+
+/-- whatever sizes the transport accepts per `Write`, the pieces concatenate to the input -/
+theorem writeLoop_flatten : ∀ (fuel : Nat) (bs : Bytes) (ks : List Nat), bs.length ≤ fuel →
+    (writeLoop fuel bs ks).flatten = bs := by
+  intro fuel
+  induction fuel with
+  | zero => intro bs ks h; simp at h; subst h; simp [writeLoop]
+  | succ fuel ih =>
+    intro bs ks h
+    by_cases h0 : bs.length = 0
+    · have : bs = [] := List.eq_nil_of_length_eq_zero h0
+      subst this; simp [writeLoop]
+    · simp only [writeLoop, h0, if_false, List.flatten_cons]
+      have hk : ∀ k : Nat, 1 ≤ k → (bs.drop k).length ≤ fuel := by
+        intro k hk; simp only [List.length_drop]; omega
+      cases ks with
+      | nil =>
+        simp only [List.tail_nil]
+        rw [ih _ _ (hk bs.length (by omega))]; simp
+      | cons k ks =>
+        simp only [List.tail_cons]
+        by_cases hz : k = 0
+        · simp only [hz, if_true]
+          rw [ih _ _ (hk 1 (by omega))]; exact List.take_append_drop 1 bs
+        · simp only [hz, if_false]
+          rw [ih _ _ (hk (min k bs.length) (by omega))]; simp
+
+end Dos.Framing
